@@ -714,6 +714,51 @@ func ParseSMTValue(v string) interface{} {
 	return v
 }
 
+// ParseFPValue converts a solver's float64 model value into its IEEE-754 bit
+// pattern (as a decimal string); ok is false if the syntax is not recognised.
+func ParseFPValue(v string, eb, sb int) (string, bool) {
+	v = strings.TrimSpace(v)
+	total := uint(eb + sb)
+	one := big.NewInt(1)
+	expAll := new(big.Int).Lsh(new(big.Int).Sub(new(big.Int).Lsh(one, uint(eb)), one), uint(sb-1))
+	switch {
+	case strings.HasPrefix(v, "(_ NaN"):
+		return new(big.Int).Or(expAll, new(big.Int).Lsh(one, uint(sb-2))).String(), true
+	case strings.HasPrefix(v, "(_ +oo"):
+		return expAll.String(), true
+	case strings.HasPrefix(v, "(_ -oo"):
+		return new(big.Int).Or(expAll, new(big.Int).Lsh(one, total-1)).String(), true
+	case strings.HasPrefix(v, "(_ +zero"):
+		return "0", true
+	case strings.HasPrefix(v, "(_ -zero"):
+		return new(big.Int).Lsh(one, total-1).String(), true
+	case strings.HasPrefix(v, "(fp "):
+		f := strings.Fields(strings.TrimSuffix(strings.TrimPrefix(v, "(fp "), ")"))
+		if len(f) != 3 {
+			return "", false
+		}
+		widths := []int{1, eb, sb - 1}
+		bits := new(big.Int)
+		for i, part := range f {
+			var n *big.Int
+			var ok bool
+			switch {
+			case strings.HasPrefix(part, "#b"):
+				n, ok = new(big.Int).SetString(part[2:], 2)
+			case strings.HasPrefix(part, "#x"):
+				n, ok = new(big.Int).SetString(part[2:], 16)
+			}
+			if !ok {
+				return "", false
+			}
+			bits.Lsh(bits, uint(widths[i]))
+			bits.Or(bits, n)
+		}
+		return bits.String(), true
+	}
+	return "", false
+}
+
 func unescapeSMTString(s string) string {
 	var sb strings.Builder
 	for i := 0; i < len(s); i++ {
